@@ -130,8 +130,8 @@ def judgeParse (o : VerOps) (s : Bytes) (impl : String) : Verdict := Id.run do
   if kind == "panic" then v := v.add "C01" "panic"
   if (kind == "ok") != w?.isSome then
     v := v.add "C01" s!"spec-accepts={w?.isSome}"
-  -- header rule of C18
-  if o.ver != .v20 && !(o.ver.header.isPrefixOf s) && impl != "err 1:-" then
+  -- header rule of C18 (Spec/Errors.lean): the part of the string before its first `/` is not the version's header
+  if o.ver != .v20 && Spec.headOf s != o.ver.header && impl != "err 1:-" then
     v := v.add "C18" "want 1:- (header)"
   -- C18, v3: only base metrics missing (everything written is legal, nothing repeated or unknown) ⇒ *ErrMissing naming the
   -- first missing one in specification order
